@@ -21,6 +21,9 @@ const jitPath = modPath + "/pkg/jit"
 const compilerPath = modPath + "/pkg/compiler"
 
 func runC15(c *Ctx) {
+	c.rule("C15-R8", "PAIR: every Lock/RLock in pkg/jit is released on every path to a return")
+	c.Sites["C15-R8#acquire-sites"] = lockReleaseAudit(c, "C15-R8", []string{"pkg/jit"})
+	c.floor("C15-R8", 10)
 	c.rule("C15-R1", "LCK: CompilationUnit.{Bytecode,Tier,CompiledAt,ExecutionCount,LastExecuted} and JITCompiler.units only under unitsMux (writes exclusive); TypeSpecialization.{IsValid,MissCount,Bytecode} and SpecializationCache.specializations under its mutex; JITCompiler.stats under statsMux; hotPathThreshold/recompileWindow under configMux; deopt records under the tracker mutex")
 	g := func(t, f, owner, m string) guard {
 		return guard{typ: jitPkg + "." + t, field: f, class: jitPkg + "." + owner + "." + m}
